@@ -9,6 +9,7 @@
 #include "nmtools/utility/shape.hpp"
 #include "nmtools/utility/has_value.hpp"
 #include "nmtools/utility/unwrap.hpp"
+#include "nmtools/utility/get.hpp"
 #include <string>
 
 namespace nmtools { namespace array {} namespace view {} namespace index {} }
@@ -56,5 +57,19 @@ template <typename T> inline std::string norm(const T& r) {
     else if constexpr (nm::is_none_v<T>) return "ok None";
     else if constexpr (is_scalar_v<T>) return "ok " + num(r);
     else return "ok " + items(r);
+}
+
+// maybe<tuple<shape, extra...>> (shape_broadcast_to): nothing / whole tuple
+// tuple<bool ok, value> (shape_concatenate): the flag decides between nothing and the value
+template <typename T> inline std::string norm_flagged(const T& r) {
+    if constexpr (meta::is_fail_v<T>) return "fail-type";
+    else if constexpr (meta::is_maybe_v<T>) {
+        if (!nm::has_value(r)) return "nothing";
+        return norm_flagged(*r);
+    } else {
+        const auto& ok = nmtools::get<0>(r);
+        if (!static_cast<bool>(ok)) return "nothing";
+        return norm(nmtools::get<1>(r));
+    }
 }
 } // namespace k9
